@@ -165,8 +165,8 @@ class Diagram(tensor.Diagram):
                 swaps = Id(source)\
                     @ Diagram.swap(1, target - source)\
                     @ Id(len(scan) - target - 1)
-                scan = scan[:source] + scan[source + 1:target]\
-                    + [scan[source]] + scan[target:]
+                scan = scan[:source] + scan[source + 1:target + 1]\
+                    + [scan[source]] + scan[target + 1:]
             else:
                 swaps = Id(len(scan))
             return scan, swaps
@@ -211,7 +211,7 @@ class Diagram(tensor.Diagram):
             node, = graph.neighbors(output)
             etype = graph.edge_type((node, output))
             hadamard = H if etype == EdgeType.HADAMARD else Id(1)
-            scan, swaps = move(scan, scan.index(node), target)
+            scan, swaps = move(scan, scan.index(node, target), target)
             diagram = diagram >> swaps\
                 >> Id(target) @ hadamard @ Id(len(scan) - target - 1)
         return diagram
